@@ -91,6 +91,21 @@ CHECKS = {
         "note": "Trusted: Go's calendar and time-zone arithmetic; the Semver specification (C04). Bounds: the base/time/revision vocabulary of the exhaustive part.",
         "technique": TLA + "pseudo-version specification over the semver specification; generated cases replayed, recorded calls trace-validated",
     },
+    "C05": {
+        "text": "Bounded-exhaustive: ModZip.tla models classification, creation, the archive check and extraction over paths as character sequences; TLC checks the create / check / extract round trip and soundness of valid files on every list of up to 2/3 files over a curated path set x modes x sizes x go versions; each list goes through the real zip.Create, and the bytes produced through the real zip.CheckZip and zip.Unzip, with the extracted tree compared byte for byte with the files reported valid; random lists of up to 30 files are recorded and re-derived under TLC.",
+        "note": "Module example.com/m v1.0.0 only; sizes are classes (a few bytes / 16 MiB + 1); archive/zip and the file system are trusted.",
+        "technique": TLA + "module-zip specification; generated file lists replayed through Create, CheckZip, Unzip; recorded random lists trace-validated",
+    },
+    "C12": {
+        "text": "Bounded-exhaustive: ModZip.tla models CheckZip and extraction; TLC checks that whatever may be extracted has clean relative well-formed names; every archive of up to 3/4 raw entries over 28 hostile entry variants is written with raw headers and given to the real zip.CheckZip and zip.Unzip inside a sentinel directory whose content (parent and siblings of the target) must be unchanged afterwards, with verdicts, lists and extracted tree equal to the specification's; random archives of up to 12 entries are recorded and re-derived under TLC.",
+        "note": "Size lies are rejected by extraction but not by the header-only zip check (read as part of what extraction enforces). Only the sentinel directory is observed, not the whole file system. The 500 MiB total limit is not exercised.",
+        "technique": TLA + "module-zip specification; generated hostile archives replayed through CheckZip and Unzip in a sentinel directory; recorded random archives trace-validated",
+    },
+    "C17": {
+        "text": "Bounded-exhaustive: ModZip.Classify is the documented rule list in order, with both vendor variants; TLC checks exactly-one-list and order independence on every list of up to 2/3 files; each list is classified by the real zip.CheckFiles and compared; lists of regular files and directories are also materialized as trees and CheckDir / CreateFromDir compared with CheckFiles / Create on the list (verdict, entries, bytes, reports); random lists of up to 30 files are recorded and re-derived under TLC.",
+        "note": "Directory side only for materializable lists without VCS metadata; which of two colliding files is reported depends on order by design (set equality is checked when nothing collides).",
+        "technique": TLA + "module-zip classification specification; generated lists replayed through CheckFiles, CheckDir, Create, CreateFromDir; recorded random lists trace-validated",
+    },
     "C19": {
         "text": "Bounded-exhaustive: DirHash.tla models the summary at text level with an abstract fixed-width digest; TLC checks order independence under all permutations, sortedness, injectivity against every one-file change/removal and newline refusal for all sets of up to 3/4 files over stress names; each set is hashed by dirhash.Hash1 in every listing order and compared with the formula written out in the harness over the specification's summary; random sets are recomputed under TLC; HashZip = HashDir = formula is evaluated on the archives produced in the module-zip replays.",
         "note": "Trusted: SHA-256, hex and base64; the harness's independent rendering of the documented formula.",
